@@ -735,10 +735,16 @@ impl Conjunction for BoundedVariantRange {
     type Output = Self;
 
     fn conjunction(self, rhs: Self) -> Self::Output {
-        match NaturalRange::by_bound_with(self.into(), rhs.into(), ops::conjunction) {
-            Variance::Variant(Bounded(range)) => range,
-            _ => unreachable!(),
-        }
+        // An open lower bound is zero (the additive identity) while an open upper bound is
+        // absorbing, so the bounds cannot be summed by the same function.
+        let lower = ops::conjunction(self.lower().into_usize(), rhs.lower().into_usize());
+        let upper = self
+            .upper()
+            .into_usize()
+            .zip(rhs.upper().into_usize())
+            .map(|(lhs, rhs)| ops::conjunction(lhs, rhs));
+        BoundedVariantRange::try_from_lower_and_upper(lower, upper)
+            .expect("conjunction of variant ranges is not variant")
     }
 }
 
